@@ -20,7 +20,8 @@ import (
 // Observation: Q <tokens> e<lexer errors> <verdicts> <pooled>
 //
 //	tokens    k:start:len,...  of the real lexer (zitiql.NewZitiQlLexer), positions in runes, '-' if none
-//	verdicts  one per symbol-table typing of the identifier x (c10Typings), '/'-separated:
+//	verdicts  one per symbol-table typing of the identifier x (c10Typings; typing `store` of the bolt* streams: the
+//	          bolt-backed stores of c10_store.go, where V carries @<api>@<dataset>), '/'-separated:
 //	            E           ast.Parse returned an error
 //	            P:<site>    ast.Parse panicked (first frame inside github.com/openziti/storage)
 //	            ok          parsed and evaluated over every dataset without panic
@@ -186,19 +187,23 @@ type c10Typing struct {
 	typ   ast.NodeType
 	isSet bool
 	known bool
+	store bool // parse against the bolt-backed stores of c10_store.go and evaluate through the Store query API
 }
 
+// c10StoreTyping: the filter names the symbols of the bolt-backed stores itself (streams bolt*)
+var c10StoreTyping = c10Typing{name: "store", store: true}
+
 var c10Typings = []c10Typing{
-	{"string", ast.NodeTypeString, false, true},
-	{"int", ast.NodeTypeInt64, false, true},
-	{"float", ast.NodeTypeFloat64, false, true},
-	{"bool", ast.NodeTypeBool, false, true},
-	{"datetime", ast.NodeTypeDatetime, false, true},
-	{"any", ast.NodeTypeAnyType, false, true},
-	{"set-string", ast.NodeTypeString, true, true},
-	{"set-int", ast.NodeTypeInt64, true, true},
-	{"set-datetime", ast.NodeTypeDatetime, true, true},
-	{"unknown", 0, false, false},
+	{"string", ast.NodeTypeString, false, true, false},
+	{"int", ast.NodeTypeInt64, false, true, false},
+	{"float", ast.NodeTypeFloat64, false, true, false},
+	{"bool", ast.NodeTypeBool, false, true, false},
+	{"datetime", ast.NodeTypeDatetime, false, true, false},
+	{"any", ast.NodeTypeAnyType, false, true, false},
+	{"set-string", ast.NodeTypeString, true, true, false},
+	{"set-int", ast.NodeTypeInt64, true, true, false},
+	{"set-datetime", ast.NodeTypeDatetime, true, true, false},
+	{"unknown", 0, false, false, false},
 }
 
 // c10Table builds the symbol table: x typed as the typing says, plus fixed symbols of every type;
@@ -264,6 +269,9 @@ func c10Site() string {
 }
 
 func c10Verdict(filter string, ty c10Typing) (verdict string) {
+	if ty.store {
+		return c10sVerdict(filter)
+	}
 	var query ast.Query
 	func() {
 		defer func() {
@@ -392,7 +400,8 @@ var c10Rhs = map[string][]string{
 	"icontains": {`"S"`},
 }
 
-func c10Sentences() []string {
+// c10MatrixSentences: every lhs form x every operator x every literal kind
+func c10MatrixSentences() []string {
 	var out []string
 	for _, lhs := range c10Lhs {
 		for _, op := range []string{"in", "not in", "IN"} {
@@ -426,6 +435,11 @@ func c10Sentences() []string {
 			}
 		}
 	}
+	return out
+}
+
+func c10Sentences() []string {
+	out := c10MatrixSentences()
 	// boolean forms and query clauses
 	out = append(out,
 		"x", "not x", "isEmpty(x)", "not isEmpty(x)", "isEmpty(from x where a)", "isEmpty(from x where v = 1)", "true", "FALSE", "x = true",
@@ -495,6 +509,7 @@ func runC10(o *opts) error {
 	impl := newLineWriter(o.out, "impl.txt")
 	defer cases.close()
 	defer impl.close()
+	defer c10sCleanup()
 	r := newRng(o.seed)
 	stats := map[string]int{}
 	// the lexer's default ConsoleErrorListener (still attached in the shipped glue) writes to os.Stderr
@@ -583,7 +598,7 @@ func runC10(o *opts) error {
 			}
 			var tys []c10Typing
 			for _, n := range strings.Split(f[3], "/") {
-				for _, ty := range c10Typings {
+				for _, ty := range append([]c10Typing{c10StoreTyping}, c10Typings...) {
 					if ty.name == n {
 						tys = append(tys, ty)
 					}
@@ -685,6 +700,25 @@ func runC10(o *opts) error {
 			rs = []rune(string(b))
 		}
 		emit("rand", rs, []c10Typing{c10Typings[0], c10Typings[3]})
+	}
+	// store-backed streams (c10_store.go): the sentences with x renamed to every kind of symbol of real boltz stores,
+	// evaluated through the Store query API over bolt files with filled / nil / empty / never written fields and buckets
+	storeOnly := []c10Typing{c10StoreTyping}
+	var boltFilters []string
+	c10sFilters(sentences, func(stream, filter string) {
+		emitS(stream, filter, storeOnly)
+		boltFilters = append(boltFilters, filter)
+	})
+	nbm := 4000
+	if o.thorough() {
+		nbm = 40000
+	}
+	for i := 0; i < nbm && len(boltFilters) > 0; i++ {
+		toks := c10Tokenize(boltFilters[r.intn(len(boltFilters))])
+		if len(toks) == 0 {
+			continue
+		}
+		emitS("boltmut", c10sMutate(r, toks), storeOnly)
 	}
 	flush()
 	stats["typings"] = len(c10Typings)
